@@ -87,6 +87,9 @@ func (w *world) apply(req *request, d *delivery) {
 	case kDestroySession:
 		s, _ := st(0)
 		if s == nfsv4.NFS4_OK {
+			if req.destroy.alive && c.sessionsMade > 0 {
+				c.sessionsMade--
+			}
 			req.destroy.alive = false
 			for i, x := range c.oldSessions {
 				if x == req.destroy {
@@ -455,6 +458,14 @@ func (w *world) applySequence(req *request, d *delivery) bool {
 		w.renew(c, d)
 		return true
 	}
+	if req.kind == kTooManyOps {
+		// Refused before the slot was occupied: the sequence ID is not
+		// consumed (but the server has thrown away the slot's cached reply).
+		if st == nfsv4.NFS4ERR_TOO_MANY_OPS {
+			w.k.Probe("too-many-operations-refused")
+		}
+		return false
+	}
 	// SEQUENCE failed.
 	if s.alive && c.sess == s {
 		if w.validContext(req, d) {
@@ -515,6 +526,7 @@ func (w *world) applyCreateSession(req *request, d *delivery) {
 			c.oldSessions = append(c.oldSessions, c.sess)
 		}
 		c.sess = &session{id: r.CsrResok4.CsrSessionid, alive: true}
+		c.sessionsMade++
 		c.csSeq = req.csSeq + 1
 		w.renew(c, d)
 		w.k.Probe("session-created")
